@@ -385,6 +385,29 @@ M("c06-outside-write", "C06", "json_object.c",
 M("c06-benign-probe-form", "C06", "linkhash.c",
   "\t\tif ((int)++n == t->size)\n\t\t\tn = 0;\n\t}\n\n\tt->table[n].k = k;", "\t\tn = n + 1;\n\t\tif ((int)n >= t->size)\n\t\t\tn = 0;\n\t}\n\n\tt->table[n].k = k;", expect="silent")
 
+# ---- C20 -------------------------------------------------------------------------------------
+M("c20-write-no-advance", "C20", "json_util.c",
+  "\t\twpos += (size_t)ret;", "\t\twpos = wsize;", needle="position")
+M("c20-write-count-whole", "C20", "json_util.c",
+  "write(fd, json_str + wpos, wsize - wpos)", "write(fd, json_str + wpos, wsize)", needle="C20.R1")
+M("c20-write-error-ignored", "C20", "json_util.c",
+  "\t\tif ((ret = write(fd, json_str + wpos, wsize - wpos)) < 0)\n\t\t{\n\t\t\t_json_c_set_last_err(\"json_object_to_fd: error writing file %s: %s\\n\",\n\t\t\t                     filename, strerror(errno));\n\t\t\treturn -1;\n\t\t}",
+  "\t\tif ((ret = write(fd, json_str + wpos, wsize - wpos)) < 0)\n\t\t{\n\t\t\tbreak;\n\t\t}", needle="C20.R1")
+M("c20-read-append-bufsize", "C20", "json_util.c",
+  "\t\tif (printbuf_memappend(pb, buf, ret) < 0)", "\t\tif (printbuf_memappend(pb, buf, sizeof(buf)) < 0)", needle="C20.R2")
+M("c20-read-error-silent", "C20", "json_util.c",
+  "\tif (ret < 0)\n\t{\n\t\t_json_c_set_last_err(\"json_object_from_fd_ex: error reading fd %d: %s\\n\", fd,\n\t\t                     strerror(errno));\n\t\tjson_tokener_free(tok);",
+  "\tif (ret < 0)\n\t{\n\t\tjson_tokener_free(tok);", needle="C20")
+M("c20-leak-tok-on-read-error", "C20", "json_util.c",
+  "\t\t                     strerror(errno));\n\t\tjson_tokener_free(tok);\n\t\tprintbuf_free(pb);\n\t\treturn NULL;\n\t}\n\n\tobj = json_tokener_parse_ex",
+  "\t\t                     strerror(errno));\n\t\tprintbuf_free(pb);\n\t\treturn NULL;\n\t}\n\n\tobj = json_tokener_parse_ex", needle="C20.R4")
+M("c20-fd-not-closed", "C20", "json_util.c",
+  "\tobj = json_object_from_fd(fd);\n\tclose(fd);\n\treturn obj;", "\tobj = json_object_from_fd(fd);\n\tif (obj)\n\t\tclose(fd);\n\treturn obj;", needle="C20.R4")
+M("c20-parse-in-loop", "C20", "json_util.c",
+  "\tobj = json_tokener_parse_ex(tok, pb->buf, printbuf_length(pb));\n\tif (obj == NULL)", "\tobj = json_tokener_parse_ex(tok, pb->buf, printbuf_length(pb) > 4096 ? 4096 : printbuf_length(pb));\n\tif (obj == NULL)", needle="C20.R2")
+M("c20-benign-while-form", "C20", "json_util.c",
+  "\twhile (wpos < wsize)\n\t{", "\twhile (wsize > wpos)\n\t{", expect="silent")
+
 
 def sh(cmd, **kw):
     return subprocess.run(cmd, shell=isinstance(cmd, str), stdout=subprocess.PIPE, stderr=subprocess.STDOUT, text=True, **kw)
